@@ -41,7 +41,12 @@ type c01Msg struct {
 	// OnChannel0: with a logical channel in the case, send this message on
 	// channel 0 instead (the two channels of one connection alternate)
 	OnChannel0 bool `json:"on_channel_0,omitempty"`
-	K, D       int  `json:"-"`
+	// RefusedAt (>= 1): before the package with this index is queued, the
+	// client queues a package the library refuses before writing a byte (a
+	// DYNAMIC package without a type); the message goes on. The packages
+	// accepted before and after it are the message.
+	RefusedAt int `json:"refused_package_before_index,omitempty"`
+	K, D      int `json:"-"`
 }
 
 type c01Case struct {
@@ -269,6 +274,12 @@ func c01Run(c *Ctx, cs c01Case) {
 		var sendErr error
 		pi := rt.Catch(func() {
 			for i, p := range pkgs {
+				if m.RefusedAt >= 1 && i == m.RefusedAt {
+					if err := ch.QueuePackage(ctx, &tds.DynamicPackage{}); err == nil {
+						r.Count("refused_package_was_accepted", 1)
+					}
+					r.Count("messages_with_a_refused_package_in_between", 1)
+				}
 				if i == len(pkgs)-1 && m.Split == "sendpackage" {
 					sendErr = ch.SendPackage(ctx, p)
 				} else {
@@ -409,6 +420,9 @@ func c01GenMsg(rnd *rt.Rand, ps, k, d int) c01Msg {
 	m.Split = []string{"sendpackage", "sendremaining"}[rnd.Intn(2)]
 	m.AbortedBefore = rnd.Chance(1, 8)
 	m.OnChannel0 = rnd.Chance(1, 3)
+	if len(m.Pkgs) >= 2 && rnd.Chance(1, 4) {
+		m.RefusedAt = rnd.Range(1, len(m.Pkgs)-1)
+	}
 	return m
 }
 
